@@ -73,6 +73,7 @@ pub fn property() -> Property {
             tape!(concat!("float-wrapped-", $n), F_W, 48, 40_000, 1_000_000, floats::f_wrapped::<$F>);
             tape!(concat!("float-wrapbetween-", $n), F_WB, 64, 40_000, 1_000_000, floats::f_wrapped_between::<$F>);
             tape!(concat!("float-pingpong-", $n), F_PP, 48, 40_000, 1_000_000, floats::f_pingpong::<$F>);
+            tape!(concat!("float-unit-grid-", $n), "value, upper and lower are small-integer multiples of one unit 2^e, the unit ranging from the smallest subnormal over MIN_POSITIVE to 2^(max-14): wrapped / Wrap::wrap / pingpong / wrapped_between / Wrap::wrap_between return the integer answer times the unit exactly and never panic on a strictly positive (possibly subnormal) bound", 48, 40_000, 1_000_000, floats::f_unit_grid::<$F>);
             tape!(concat!("float-delta-angle-", $n), F_DA, 48, 25_000, 600_000, floats::f_delta_angle::<$F>);
             tape!(concat!("float-delta-degrees-", $n), F_DD, 48, 25_000, 600_000, floats::f_delta_angle_degrees::<$F>);
             tape!(concat!("float-wrapped-2pi-", $n), F_2PI, 32, 10_000, 250_000, floats::f_wrapped_2pi::<$F>);
